@@ -99,9 +99,9 @@ func NewSymNormLaplacian(g graph.Undirected) Laplacian {
 
 // NewRandomWalkLaplacian returns a damp-scaled random walk Laplacian matrix for
 // the simple graph g.
-// The random walk Laplacian is defined as I-D^(-1)A where D is a diagonal matrix
-// holding the degree of each node and A is the graph adjacency matrix of the input
-// graph.
+// The random walk Laplacian is defined as I-A^TD^(-1) where D is a diagonal matrix
+// holding the out-degree of each node and A is the graph adjacency matrix of the input
+// graph, so that each column sums to zero. The matrix is scaled by 1-damp.
 // If g contains self edges, NewRandomWalkLaplacian will panic.
 func NewRandomWalkLaplacian(g graph.Graph, damp float64) Laplacian {
 	nodes := graph.NodesOf(g.Nodes())
